@@ -99,6 +99,166 @@ func (b *vfc14Counting) GetRange(ctx context.Context, name string, off, length i
 	return b.Bucket.GetRange(ctx, name, off, length)
 }
 
+// vfc14Fault is one planned transient failure of the wrapped bucket: the K-th call of Class fails once.
+type vfc14Fault struct {
+	Class string `json:"class"` // Get, GetRange, Exists, Attributes, Iter
+	K     int    `json:"kth_call"`
+	Kind  string `json:"kind"`              // error, ctx-canceled, ctx-deadline, read-fails (Get/GetRange: reader fails after N good bytes), iter-fails (after N entries)
+	N     int    `json:"after,omitempty"` // bytes / entries delivered before the failure
+}
+
+var vfc14ErrTransient = fmt.Errorf("vf: injected transient failure of the wrapped bucket")
+
+// vfc14Faulty sits between the caching bucket and the in-memory bucket and executes the fault plan.
+// Everything it does not fail is answered by the in-memory bucket unchanged; objects never change.
+type vfc14Faulty struct {
+	objstore.Bucket
+	mu       sync.Mutex
+	plan     []vfc14Fault
+	calls    map[string]int
+	injected int
+}
+
+func (b *vfc14Faulty) faults() int { b.mu.Lock(); defer b.mu.Unlock(); return b.injected }
+
+// next counts a call of class and returns the fault planned for it, if any.
+func (b *vfc14Faulty) next(class string) *vfc14Fault {
+	b.mu.Lock()
+	defer b.mu.Unlock()
+	b.calls[class]++
+	for i := range b.plan {
+		if b.plan[i].Class == class && b.plan[i].K == b.calls[class] {
+			f := b.plan[i]
+			return &f
+		}
+	}
+	return nil
+}
+
+func (b *vfc14Faulty) fire() { b.mu.Lock(); b.injected++; b.mu.Unlock() }
+
+func (b *vfc14Faulty) errOf(f *vfc14Fault) error {
+	switch f.Kind {
+	case "ctx-canceled":
+		return context.Canceled
+	case "ctx-deadline":
+		return context.DeadlineExceeded
+	}
+	return vfc14ErrTransient
+}
+
+type vfc14FailingReader struct {
+	io.ReadCloser
+	left int
+	b    *vfc14Faulty
+	err  error
+	done bool
+}
+
+func (r *vfc14FailingReader) Read(p []byte) (int, error) {
+	if r.left <= 0 {
+		if !r.done {
+			r.done = true
+			r.b.fire()
+		}
+		return 0, r.err
+	}
+	if len(p) > r.left {
+		p = p[:r.left]
+	}
+	n, err := r.ReadCloser.Read(p)
+	r.left -= n
+	if err == io.EOF {
+		// the object ended before the planned failure point: nothing is injected
+		r.left = 1 << 30
+	}
+	return n, err
+}
+
+func (b *vfc14Faulty) reader(f *vfc14Fault, rc io.ReadCloser, err error) (io.ReadCloser, error) {
+	if f == nil || err != nil {
+		return rc, err
+	}
+	if f.Kind == "read-fails" {
+		return &vfc14FailingReader{ReadCloser: rc, left: f.N, b: b, err: vfc14ErrTransient}, nil
+	}
+	_ = rc.Close()
+	b.fire()
+	return nil, b.errOf(f)
+}
+
+func (b *vfc14Faulty) Get(ctx context.Context, name string) (io.ReadCloser, error) {
+	f := b.next("Get")
+	rc, err := b.Bucket.Get(ctx, name)
+	return b.reader(f, rc, err)
+}
+
+func (b *vfc14Faulty) GetRange(ctx context.Context, name string, off, length int64) (io.ReadCloser, error) {
+	f := b.next("GetRange")
+	rc, err := b.Bucket.GetRange(ctx, name, off, length)
+	return b.reader(f, rc, err)
+}
+
+func (b *vfc14Faulty) Exists(ctx context.Context, name string) (bool, error) {
+	if f := b.next("Exists"); f != nil {
+		b.fire()
+		return false, b.errOf(f)
+	}
+	return b.Bucket.Exists(ctx, name)
+}
+
+func (b *vfc14Faulty) Attributes(ctx context.Context, name string) (objstore.ObjectAttributes, error) {
+	if f := b.next("Attributes"); f != nil {
+		b.fire()
+		return objstore.ObjectAttributes{}, b.errOf(f)
+	}
+	return b.Bucket.Attributes(ctx, name)
+}
+
+func (b *vfc14Faulty) Iter(ctx context.Context, dir string, fn func(string) error, options ...objstore.IterOption) error {
+	f := b.next("Iter")
+	if f == nil {
+		return b.Bucket.Iter(ctx, dir, fn, options...)
+	}
+	if f.Kind != "iter-fails" {
+		b.fire()
+		return b.errOf(f)
+	}
+	seen, fired := 0, false
+	err := b.Bucket.Iter(ctx, dir, func(s string) error {
+		if seen >= f.N {
+			fired = true
+			return vfc14ErrTransient
+		}
+		seen++
+		return fn(s)
+	}, options...)
+	if fired {
+		b.fire()
+	}
+	return err
+}
+
+func vfc14GenFaults(rng *rand.Rand) []vfc14Fault {
+	if rng.Intn(2) == 0 {
+		return nil // fault-free history: the plain transparency oracle
+	}
+	n := 1 + rng.Intn(3)
+	out := make([]vfc14Fault, 0, n)
+	for i := 0; i < n; i++ {
+		f := vfc14Fault{Class: vfkit.Pick(rng, []string{"Get", "Get", "GetRange", "GetRange", "Exists", "Attributes", "Iter"}), K: 1 + rng.Intn(4),
+			Kind: vfkit.Pick(rng, []string{"error", "error", "ctx-canceled", "ctx-deadline"})}
+		if (f.Class == "Get" || f.Class == "GetRange") && rng.Intn(3) == 0 {
+			f.Kind, f.N = "read-fails", rng.Intn(40)
+		}
+		if f.Class == "Iter" && rng.Intn(3) == 0 {
+			f.Kind, f.N = "iter-fails", rng.Intn(3)
+		}
+		out = append(out, f)
+	}
+	return out
+}
+
 type vfc14Op struct {
 	Kind    string `json:"op"` // GetRange, Get, GetPartial, Exists, Attributes, Iter, IterRecursive
 	Name    string `json:"name"`
@@ -117,6 +277,7 @@ type vfc14Cfg struct {
 	PEvict      float64        `json:"p_evict_on_fetch"`
 	Objects     map[string]int `json:"object_sizes"`
 	Goroutines  int            `json:"goroutines"`
+	Faults      []vfc14Fault   `json:"wrapped_bucket_fault_plan"`
 	CachedKinds []string       `json:"cached_operations"`
 }
 
@@ -299,6 +460,7 @@ type vfc14Env struct {
 	cfg   vfc14Cfg
 	under objstore.Bucket
 	cb    *CachingBucket
+	fb    *vfc14Faulty
 	wit   func(op vfc14Op, extra map[string]any) map[string]any
 }
 
